@@ -34,22 +34,22 @@ def c10Pairs (e : Sexp) : List (Nat × Nat) :=
       | _ => none
   | _ => []
 
-/-- `(c10 vm codes strings nsets capsize text setrows lower word ecmaword endzStrict ecma fuel k attempts)`:
+/-- `(c10 vm codes strings nsets capsize trackcount text setrows lower word ecmaword endzStrict ecma fuel k attempts)`:
     `codes` the code array, `strings` the string table (lists of runes), `setrows` the pairs `(set rune)`
     with `Sets[set].CharIn(rune)`, `lower` the pairs `(rune unicode.ToLower(rune))` that differ, `word` /
     `ecmaword` the word characters among the runes of the text, `attempts` a list of `(pos textstart)`.
-    Answer: `(vm wf (outcome steps maxtrack maxstack textpos hash (first k tuples) (counts) (arrays…))…)`,
+    Answer: `(vm wf potOk (outcome steps maxtrack maxstack textpos hash (first k tuples) (counts) (arrays…))…)`,
     one entry per attempt; outcome ∈ match | nomatch | fuel | fault-<kind>; capture arrays after `tidy`, cut to
     the live entries. -/
 def handleC10 (args : List Sexp) : String :=
   match args with
-  | [mode, codes, strings, nsets, capsize, text, setrows, lower, word, ecmaword, endz, ecma, fuel, k, attempts] =>
-    match mode.sym?, codes.ints?, strings.list?, nsets.nat?, capsize.nat?, text.nats?, word.nats?,
+  | [mode, codes, strings, nsets, capsize, trackcount, text, setrows, lower, word, ecmaword, endz, ecma, fuel, k, attempts] =>
+    match mode.sym?, codes.ints?, strings.list?, nsets.nat?, capsize.nat?, trackcount.nat?, text.nats?, word.nats?,
           ecmaword.nats?, endz.bool?, ecma.bool?, fuel.nat?, k.nat?, attempts.list? with
-    | some "vm", some codes, some strs, some nsets, some capsize, some text, some word, some ecmaword,
+    | some "vm", some codes, some strs, some nsets, some capsize, some tc, some text, some word, some ecmaword,
       some endz, some ecma, some fuel, some k, some atts =>
       let p : Prog := { codes := codes.toArray, strings := (strs.map fun s => (s.nats?).getD []).toArray,
-                        nsets := nsets, trackcount := 0, capsize := capsize, caps := [], rtl := false }
+                        nsets := nsets, trackcount := tc, capsize := capsize, caps := [], rtl := false }
       let rows := c10Pairs setrows
       let setTab : Array (List Nat) :=
         (List.range nsets).toArray.map fun i => (rows.filter (fun r => r.1 == i)).map (·.2)
@@ -80,8 +80,8 @@ def handleC10 (args : List Sexp) : String :=
                     ofInts ((MatchBuilder.arr b c).take (2 * MatchBuilder.cnt b c)))
               else mk "nomatch" (common s.textpos)
         | _ => mk "bad-attempt" []
-      toString (mk "vm" ([ofBool p.wf] ++ atts.map one))
-    | _, _, _, _, _, _, _, _, _, _, _, _, _ => "(bad-op)"
+      toString (mk "vm" ([ofBool p.wf, ofBool (potOk p)] ++ atts.map one))
+    | _, _, _, _, _, _, _, _, _, _, _, _, _, _ => "(bad-op)"
   | _ => "(bad-op)"
 
 end RegexVerif.Driver
